@@ -26,9 +26,9 @@ mkdir -p "$WORK/instr/$name"
 # end-to-end part: hashed calls through the real endpoint manager (the hashed histories of checks/c15)
 rc1=0
 case " $* " in *" --replay "*) ;; *)
-  build_e1 c15 $TARS_E1_ARGS
+  E1_SRC=c15 build_e1 c14e2e $TARS_E1_ARGS
   rm -f "$VERIF_ROOT/evidence/C14.e2e.json"
-  C15_AS=C14 C15_ONLY=call VERIF_EVIDENCE_SUFFIX=.e2e "$WORK/bin/c15" "$@"; rc1=$?
+  C15_AS=C14 C15_ONLY=call VERIF_EVIDENCE_SUFFIX=.e2e "$WORK/bin/c14e2e" "$@"; rc1=$?
   ;;
 esac
 "$WORK/bin/$name" "$@"; rc2=$?
